@@ -300,7 +300,6 @@ func siteClass(site string) int {
 //
 //go:norace
 func Run(root func(), c Config, s *Tape) Result {
-	RaceOff() // the driver never contributes happens-before edges
 	cfg = c
 	S = s
 	if cfg.MaxSteps == 0 {
@@ -325,6 +324,10 @@ func Run(root func(), c Config, s *Tape) Result {
 		unadopt(id)
 		close(rootDone)
 	}()
+	// The root task is started with the race detector on, so that everything
+	// the harness set up before the run happens-before it. From here on the
+	// driver never contributes happens-before edges.
+	RaceOff()
 
 	var res Result
 	// strategy knobs
